@@ -60,6 +60,11 @@ CLAIMED = {
    text='Clauses (necessary conditions for seed independence): under reset every architectural register is cleared and memory cannot be written for any instruction byte the power-on state may present; the testbench asserts reset at or before the first evaluated rising clock edge, evaluates inside reset, releases it, and services no system call before release; the image is loaded before the clock starts.',
    note='Not decided: per-seed outcomes and Verilator\'s randomisation model. The repaired tree was additionally swept over 2000 seeds outside the check (0 deviations; 4 in 1500 before).',
    ref='DESIGN.md section 5, C13'),
+ 'C06': dict(
+   technique='static analysis (compositional): symbolic effect summaries of hextb.cpp handleSyscall vs hexsim::Processor::syscall compared by canonical form; AST rules for the loader; abstract interpretation of run() (clock/reset/request schedule, exit-value flow)',
+   text='Compositional clauses on top of C02 (hexsim == ISA) and C03 (RTL == ISA): the system-call shim has exactly the simulator\'s effects for EXIT/WRITE/READ (argument slots, 8-bit truncation, stream routing primitives, store, exit value) and rejects other numbers; the loader puts the image at word 0 with the header<<2 size rule; after reset each requesting clock is serviced exactly once (also back-to-back), nothing is serviced without a request, EXIT ends the run and run() returns the exit value unchanged for all 32-bit values.',
+   note='Not decided: end-to-end equality for concrete binaries/inputs (follows from the clauses only for programs that never read unwritten memory: hextb copies the symbol tables behind the image); stdout banner. Imports C02/C03 verdicts.',
+   ref='DESIGN.md section 5, C06'),
 }
 
 NOT_YET = 'engine not finished yet in this round (DESIGN.md section 7 build order); no check is registered, nothing is claimed'
